@@ -282,10 +282,20 @@ def r14_5(chk, facts):
                 if not any(A.ref_name(y) in idx_names for a in c.get('args') or [] for y in A.walk(a) if y.get('k') == 'DeclRefExpr'): continue
                 k += 1; n += 1
                 tests = set()
+                # a `const` local that holds the size (`const std::size_t length = current->size();`) stands for the call
+                size_locals = {}
+                for d in A.walk_no_lambda(fn['body']):
+                    if d.get('k') == 'VarDecl' and d.get('init') is not None and F.tname(fn, d.get('t')).startswith('const ') and \
+                       any(A.callee_name(z) == 'size' for z in A.calls_in(d['init'])) and 'size() -' not in A.text(d['init']) and 'size() +' not in A.text(d['init']):
+                        size_locals[d['id']] = d['init']
+                def unalias(e):
+                    e2 = A.strip(e, casts=True)
+                    return size_locals[e2['id']] if e2 is not None and e2.get('k') == 'DeclRefExpr' and e2.get('id') in size_locals else e
                 for a, lab, e in g.guards(nd):
                     cmp_ = G.comparison(a)
                     if not cmp_: continue
                     op, l, r = cmp_
+                    l, r = unalias(l), unalias(r)
                     if A.ref_name(l) in idx_names and any(A.callee_name(z) == 'size' for z in A.calls_in(r)) and 'size() -' not in A.text(r) and 'size() +' not in A.text(r):
                         tests.add((op, bool(lab)))
                     elif A.ref_name(r) in idx_names and any(A.callee_name(z) == 'size' for z in A.calls_in(l)):
